@@ -89,3 +89,9 @@ def run(ck, F, tier):
             ck.ok('D', '%s: |fixed - real| <= %.4f < 1, |accumulator| <= %d < 2^31, coefficients of fixed sign => monotone' % (ch, float(err), mag))
         else:
             ck.violation('D', 'D : %s : bound' % ch, where_of(b), '%s: error bound %.4f, accumulator magnitude %d' % (ch, float(err), mag))
+    # "for each triple the converted pixel ..": in a picture, pixel x of a row must be given its own luma sample and the chroma pair of its own 4-pixel group
+    # (whole groups, remainder columns, row pairing) - C08's rules K, M, R and their panic / geometry clauses, re-run here on this tree
+    from . import c08
+    from ..report import Scoped
+    c08.run(Scoped(ck, 'C08.'), F, tier)
+
